@@ -60,13 +60,10 @@ impl DataItem for TimeItem {
 
         let calculated_right = Duration::seconds(right.num_seconds_from_midnight() as i64);
 
-        if is_negative {
-            return Some(Rc::new(TimeItem(self.0 - calculated_right, self.1.clone())));
-        }
-        
-        match operation_type {
-            OperationType::Add => Some(Rc::new(TimeItem(self.0 + calculated_right, self.1.clone()))),
-            OperationType::Sub => Some(Rc::new(TimeItem(self.0 - calculated_right, self.1.clone()))),
+        /* Adding a negative duration moves the clock back, subtracting it moves the clock forward */
+        match (operation_type, is_negative) {
+            (OperationType::Add, false) | (OperationType::Sub, true) => Some(Rc::new(TimeItem(self.0 + calculated_right, self.1.clone()))),
+            (OperationType::Sub, false) | (OperationType::Add, true) => Some(Rc::new(TimeItem(self.0 - calculated_right, self.1.clone()))),
             _ => None
         }
     }
